@@ -457,6 +457,7 @@ C07_Accept(c, trk, call, o) ==
   THEN AcceptCtor(call, o)
   \* read-back: accessors applied to a structure built from constructed tags decode what was stored
   ELSE IF trk.img = "info" /\ IsInfoRead(call) THEN C04_Accept(c, trk, call, o)
+  ELSE IF trk.img = "header" /\ (IsHdrRead(call) \/ call.op = "hacc") THEN C11_Accept(c, trk, call, o)
   ELSE TRUE
 \* C17 (build side): string tags store the text and exactly one terminating NUL
 C17_Build(c, trk, call, o) ==
